@@ -1,5 +1,7 @@
 package main
 
+import "strings"
+
 // curatedWorlds: hand-written worlds that always run first (shapes behind past defects and the
 // corner cases named in the properties).
 func curatedWorlds() []wWorld {
@@ -46,7 +48,7 @@ func curatedWorlds() []wWorld {
 		entry := wMsg{Head: wMsgHead{Name: "TagsEntry", MapEntry: true, Fields: []wField{f("key", 1, 1, 9, ""), f("value", 2, 1, 5, "")}, Enums: []wEnum{}, Oneofs: []string{}, Exts: []wField{}}, Nested: []wMsg{}}
 		inner2 := wMsg{Head: mh("Inner2", f("deep", 1, 1, 11, ".Outer.Inner1")), Nested: []wMsg{{Head: mh("Deeper"), Nested: []wMsg{{Head: mh("Deepest", f("up", 1, 2, 11, ".Outer")), Nested: []wMsg{}}}}}}
 		outer := wMsg{Head: mh("Outer", f("tags", 1, 3, 11, ".Outer.TagsEntry"), f("req", 2, 2, 9, ""), f("i2", 3, 1, 11, ".Outer.Inner2")), Nested: []wMsg{inner1, entry, inner2}}
-		outer.Head.extRange = true
+		outer.Head.ExtRange = true
 		a.Msgs = []wMsg{outer}
 		b := file("b.proto", "", "")
 		b.Deps = []string{"a.proto"}
@@ -65,7 +67,7 @@ func curatedWorlds() []wWorld {
 	{
 		base := file("base.proto", "p", "proto2")
 		bm := wMsg{Head: mh("Base"), Nested: []wMsg{}}
-		bm.Head.extRange = true
+		bm.Head.ExtRange = true
 		base.Msgs = []wMsg{bm}
 		base.Enums = []wEnum{{Name: "Color", Values: []wEnumVal{{"RED", 0}, {"BLUE", 1}}}}
 		mid := file("mid.proto", "p.q", "proto2")
@@ -79,6 +81,18 @@ func curatedWorlds() []wWorld {
 		x.Extendee = ".p.Base"
 		top.Exts = []wField{x}
 		out = append(out, wWorld{Files: []wFile{base, mid, unused, top}, Targets: []string{"top.proto", "base.proto"}, Bidi: true})
+	}
+	// 4. qualified-name length sweep: every length from 4 to ~330 bytes occurs for some message,
+	//    field, enum or value (fixed-size buffers, truncation, hashing by length ...)
+	for base := 1; base <= 321; base += 40 {
+		fl := file("len.proto", "p", "proto3")
+		for l := base; l < base+40; l++ {
+			name := "M" + strings.Repeat("a", l-1)
+			m := wMsg{Head: mh(name, f("f", 1, 1, 9, ""), f("self", 2, 1, 11, ".p."+name)), Nested: []wMsg{{Head: mh("N", f("g", 1, 1, 5, "")), Nested: []wMsg{}}}}
+			m.Head.Enums = []wEnum{{Name: "E", Values: []wEnumVal{{"Z" + name, 0}}}}
+			fl.Msgs = append(fl.Msgs, m)
+		}
+		out = append(out, wWorld{Files: []wFile{fl}, Targets: []string{"len.proto"}})
 	}
 	return out
 }
